@@ -589,6 +589,9 @@ func (st *State) event(name string, pos token.Pos, args ...Term) {
 		name = st.ctx.eng.stableEventName(st.fr.fn, name)
 	}
 	st.trace = append(st.trace, Event{Name: name, Args: args, Pos: pos})
+	if st.dry != nil && !strings.HasPrefix(name, "loop*") {
+		st.dry.events[name] = true
+	}
 	if st.ctx.eventsSeen == nil {
 		st.ctx.eventsSeen = map[string]bool{}
 	}
@@ -608,7 +611,7 @@ func (st *State) countEvents(name string) Term {
 			n++
 		}
 	}
-	if unc && (wild || st.ctx.eventInLoop(name)) {
+	if unc && (wild || st.ctx.eventInLoop(name) || st.loopEvents[name]) {
 		t := st.ctx.freshConst("cnt!"+name, SInt)
 		st.assume(Ge(t, I(int64(n))))
 		return t
@@ -1066,6 +1069,16 @@ func (e *Engine) enterLoop(st *State, li *loopInfo, from *ssa.BasicBlock, k cont
 	}
 	// 2. havoc: cells stored in the loop, and heap components written by one dry run of the body
 	keys, dinfo := e.dryRun(st, li)
+	if st.loopEvents == nil {
+		st.loopEvents = map[string]bool{}
+	}
+	for ev := range dinfo.events {
+		st.loopEvents[ev] = true
+	}
+	if st.loopEvBy == nil {
+		st.loopEvBy = map[string]map[string]bool{}
+	}
+	st.loopEvBy[fmt.Sprintf("loop*%d", li.ordinal)] = dinfo.events
 	st.bumpFrontier()
 	for _, a := range li.allocs {
 		pv, ok := st.fr.regs[a]
@@ -1113,7 +1126,7 @@ func (e *Engine) enterLoop(st *State, li *loopInfo, from *ssa.BasicBlock, k cont
 		}
 	}
 	for g := range st.ghost {
-		if st.ctx.ghostInLoop(li, g) {
+		if st.ctx.ghostInLoop(li, g) || dinfo.ghosts[g] {
 			old := st.ghost[g]
 			st.ghost[g] = st.freshValLike(old, "hv!ghost!"+g)
 		}
@@ -1306,7 +1319,7 @@ func (e *Engine) backEdge(st *State, li *loopInfo, from *ssa.BasicBlock) {
 // the heap components the body may write.
 func (e *Engine) dryRun(st *State, li *loopInfo) ([]string, *dryInfo) {
 	d := st.clone()
-	d.dry = &dryInfo{keys: map[string]bool{}, loop: li, fr: st.fr.fn, rows: map[string][]Term{}, whole: map[string]bool{}, sorts: map[string]string{}, start: st.ctx.fresh}
+	d.dry = &dryInfo{keys: map[string]bool{}, loop: li, fr: st.fr.fn, rows: map[string][]Term{}, whole: map[string]bool{}, sorts: map[string]string{}, ghosts: map[string]bool{}, events: map[string]bool{}, start: st.ctx.fresh}
 	info := d.dry
 	// havoc stored cells first so that constant folding cannot hide a branch
 	for _, a := range li.allocs {
@@ -1344,6 +1357,12 @@ func (e *Engine) dryRun(st *State, li *loopInfo) ([]string, *dryInfo) {
 	}
 	sort.Strings(keys)
 	if st.dry != nil {
+		for g := range info.ghosts {
+			st.dry.ghosts[g] = true
+		}
+		for ev := range info.events {
+			st.dry.events[ev] = true
+		}
 		for _, k := range keys {
 			st.dry.keys[k] = true
 			if info.whole[k] {
